@@ -93,6 +93,16 @@ def run_case(case):
             r = node.write(L.Frame(h, msg))
             return r, t0, net.sim.now
 
+        un = case.get("unread")
+        if un:
+            # the sender has not read its mail: `count` plain frames from another node sit in its queue (which holds 6) when
+            # it writes; the NETWORK_ACK is not a queued frame and must be taken in all the same
+            def do_unread(node):
+                for i in range(un["count"]):
+                    node.write(L.Frame(L.Header(src, 1), b"un%02d" % i))
+            net.call(un["src"], do_unread, timeout_ms=5000)
+            net.settle(500)
+            res.label("sender-holds-unread-%s" % ("some" if un["count"] < 6 else "full-queue"))
         ch = case.get("chatter")
         if ch:
             # a neighbour keeps sending unacknowledged-type user frames to the (waiting) sender at a fixed period
@@ -302,6 +312,16 @@ def _enum(quick):
                         n["mcu"] = {"spi": spi, "jit": 0, "seed": 1, "poll": 100} if n["addr"] == 0o1 else {"spi": 8, "jit": 0, "seed": 2, "poll": 100}
                     yield {"src": 0o1, "dst": 0o2, "type": 100, "msg": "d4", "tx_timeout": 25, "route_timeout": 75, "fault": f,
                            "nodes": nodes, "chatter": {"src": 0o11, "period_us": period, "count": 500}}
+        # the sender's own queue holds 0..8 unread frames (it takes 6) when it writes a message that needs a NETWORK_ACK
+        for count in range(0, 9):
+            for spi in (20, 400):
+                for f in (None, ["ack", 0]):
+                    for s_, d_, x_ in ((0o1, 0o2, 0o11), (0o11, 0o2, 0o1), (0, 0o11, 0o2)):
+                        nodes = _topology(s_, d_, [x_])
+                        for n in nodes:
+                            n["mcu"] = {"spi": spi, "jit": 0, "seed": 1, "poll": 100} if n["addr"] == s_ else None
+                        yield {"src": s_, "dst": d_, "type": 100, "msg": "d5", "tx_timeout": 25, "route_timeout": 75, "fault": f,
+                               "nodes": nodes, "unread": {"src": x_, "count": count}}
     return gen
 
 
@@ -351,8 +371,15 @@ def _strategy():
         if draw(st.integers(0, 4)) == 0:
             for x in nodes:
                 x["mc_off"] = True
+        unread = None
+        if bg is None and draw(st.integers(0, 3)) == 0:
+            cand = [x for x in nodes if x["addr"] != s]
+            if cand:
+                x = draw(st.sampled_from(cand))
+                x["kind"] = "net"
+                unread = {"src": x["addr"], "count": draw(st.sampled_from([1, 3, 5, 6, 6, 7, 9]))}
         n = draw(st.integers(0, 24))
-        return {"src": s, "dst": d, "type": typ, "bg": bg, "msg": draw(st.binary(min_size=n, max_size=n)).hex(),
+        return {"src": s, "dst": d, "type": typ, "bg": bg, "unread": unread, "msg": draw(st.binary(min_size=n, max_size=n)).hex(),
                 "tx_timeout": draw(st.sampled_from([5, 10, 25, 50])), "route_timeout": draw(st.sampled_from([20, 40, 75, 200])),
                 "fault": fault, "nodes": nodes}
 
